@@ -1,8 +1,560 @@
 import GB.Base.Proto
+import GB.C04.Spec
+/-
+  C04 driver: parses one case line of harness/c04 (schema, binding, body, path/query parameters and the
+  post-library oracles), runs the model `transcode` / `streamTranscode`, judges the implementation's
+  result against model and specification, and requires the three registry configurations to agree.
+-/
 namespace GB.C04
 open GB GB.Proto
 
-/-- stub: replaced when the C04 slice is built -/
-def handle : Handler := fun _ _ => "BAD c04 unimplemented"
+abbrev P := StateT (List String) Option
+
+def tok : P String := fun s => match s with
+  | [] => none
+  | t :: rest => some (t, rest)
+
+def expectTok (x : String) : P Unit := do
+  let t ← tok
+  if t == x then pure () else failure
+
+def natTok : P Nat := do
+  let t ← tok
+  match t.toNat? with
+  | some n => pure n
+  | none => failure
+
+def intTok : P Int := do
+  let t ← tok
+  match t.toInt? with
+  | some n => pure n
+  | none => failure
+
+def hexTok : P Bytes := do
+  let t ← tok
+  match parseHex t with
+  | some b => pure b
+  | none => failure
+
+def nameTok : P Name := do
+  let t ← tok
+  pure (ascii t)
+
+def repeatP {α} (n : Nat) (p : P α) : P (List α) :=
+  match n with
+  | 0 => pure []
+  | k + 1 => do
+    let a ← p
+    let rest ← repeatP k p
+    pure (a :: rest)
+
+def kindOf (k : String) (ref : Name) : Option Kind :=
+  match k with
+  | "bool" => some .bool
+  | "int32" | "sint32" | "sfixed32" => some .int32
+  | "int64" | "sint64" | "sfixed64" => some .int64
+  | "uint32" | "fixed32" => some .uint32
+  | "uint64" | "fixed64" => some .uint64
+  | "float" => some .float
+  | "double" => some .double
+  | "string" => some .string
+  | "bytes" => some .bytes
+  | "enum" => some (.enum ref)
+  | "message" => some (.message ref)
+  | _ => none
+
+def fieldP : P Field := do
+  expectTok "F"
+  let name ← nameTok
+  let json ← nameTok
+  let num ← natTok
+  let k ← tok
+  let card ← tok
+  let pres ← tok
+  let oneof ← tok
+  let ref ← nameTok
+  let kind ← (match kindOf k ref with
+    | some x => pure x
+    | none => failure : P Kind)
+  let c ← (match card with
+    | "s" => pure Card.single
+    | "l" => pure Card.list
+    | other =>
+      if other.startsWith "m:" then
+        match kindOf ((other.drop 2).toString) [] with
+        | some kk => pure (Card.map kk)
+        | none => failure
+      else failure : P Card)
+  let o ← (if oneof == "-" then pure none
+    else match ((oneof.drop 1).toString).toNat? with
+      -- "o<i>" = real oneof i; "p<i>" = proto3 optional (synthetic, one member): numbered from 1000
+      | some n => pure (some (if oneof.startsWith "p" then 1000 + n else n))
+      | none => failure : P (Option Nat))
+  pure { name := name, json := json, number := num, kind := kind, card := c, presence := pres == "1", oneof := o }
+
+def schemaP : P Schema := do
+  expectTok "S"
+  let ne ← natTok
+  let enums ← repeatP ne (do
+    expectTok "E"
+    let n ← nameTok
+    let nv ← natTok
+    let vals ← repeatP nv (do
+      let vn ← nameTok
+      let num ← intTok
+      pure (vn, num))
+    pure ({ name := n, values := vals } : EnumDesc))
+  let nm ← natTok
+  let msgs ← repeatP nm (do
+    expectTok "M"
+    let n ← nameTok
+    let nf ← natTok
+    let fs ← repeatP nf fieldP
+    pure ({ name := n, fields := fs } : MsgDesc))
+  pure { enums := enums, msgs := msgs }
+
+def valOfTok (t : String) : Option Val :=
+  match t.toList with
+  | 'b' :: ['0'] => some (.bool false)
+  | 'b' :: ['1'] => some (.bool true)
+  | 'i' :: rest => (String.ofList rest).toInt?.map .int
+  | 'x' :: _ => (parseHex t).map .bytes
+  | 'o' :: rest => (hexDecodeChars rest).map .opaque
+  | _ => none
+
+def valP : P Val := do
+  let t ← tok
+  match valOfTok t with
+  | some v => pure v
+  | none => failure
+
+def entryP : P (Path × Cell) := do
+  let pb ← hexTok
+  let path := splitDot pb
+  let c ← tok
+  match c with
+  | "p" => pure (path, .present)
+  | "s" => do
+    let v ← valP
+    pure (path, .single v)
+  | "l" => do
+    let n ← natTok
+    let vs ← repeatP n valP
+    pure (path, .list vs)
+  | "m" => do
+    let n ← natTok
+    let es ← repeatP n (do
+      let k ← valP
+      let v ← valP
+      pure (k, v))
+    pure (path, .map es)
+  | _ => failure
+
+def entriesP : P Msg := do
+  let n ← natTok
+  repeatP n entryP
+
+inductive DecX where
+  | dec (d : Dec)
+  | trav
+  | panic
+
+def decP : P DecX := do
+  let t ← tok
+  match t with
+  | "none" => pure (.dec .none)
+  | "err" => pure (.dec .err)
+  | "eof" => pure (.dec .eof)
+  | "trav" => pure .trav
+  | "panic" => pure .panic
+  | "ok" => do
+    let es ← entriesP
+    pure (.dec (.ok es))
+  | _ => failure
+
+def oracleEntryP : P (Name × Bytes × Parsed) := do
+  let tag ← nameTok
+  let text ← hexTok
+  let r ← tok
+  match r with
+  | "err" => pure (tag, text, .err)
+  | "okv" => do
+    let v ← valP
+    pure (tag, text, .val v)
+  | "okm" => do
+    let b ← valP
+    let es ← entriesP
+    match b with
+    | .opaque blob => pure (tag, text, .msg blob es)
+    | _ => failure
+  | _ => failure
+
+def mkOracle (tbl : List (Name × Bytes × Parsed)) : Oracle := fun tag text =>
+  (tbl.find? (fun e => e.1 == tag && e.2.1 == text)).map (·.2.2)
+
+inductive Res where
+  | ok (m : Msg)
+  | err (e : String)
+  | other (s : String)     -- panic / build failure / …
+
+def resP : P Res := do
+  let t ← tok
+  match t with
+  | "ok" => do
+    let es ← entriesP
+    pure (.ok es)
+  | "err" => do
+    let e ← tok
+    pure (.err e)
+  | "panic" => do
+    let _ ← tok
+    pure (.other "panic")
+  | "buildfail" => do
+    let _ ← tok
+    pure (.other "buildfail")
+  | other => pure (.other other)
+
+/-! canonical rendering (driver-side normalisation; order of entries / map keys is not significant) -/
+
+def renderVal : Val → String
+  | .bool b => if b then "b1" else "b0"
+  | .int i => s!"i{i}"
+  | .bytes b => toHex b
+  | .opaque b => "o" ++ toHex b
+
+def renderPath (p : Path) : String := String.intercalate "." (p.map toHex)
+
+def sortStrings (l : List String) : List String := l.mergeSort (fun a b => decide (a ≤ b))
+
+def renderCell : Cell → String
+  | .present => "p"
+  | .single v => "s " ++ renderVal v
+  | .list vs => "l " ++ String.intercalate "," (vs.map renderVal)
+  | .map es => "m " ++ String.intercalate "," (sortStrings (es.map (fun e => renderVal e.1 ++ "=" ++ renderVal e.2)))
+
+def renderLeaves (m : Msg) : List String :=
+  sortStrings ((leaves m).map (fun e => renderPath e.1 ++ " " ++ renderCell e.2))
+
+def renderFull (m : Msg) : List String :=
+  sortStrings (m.map (fun e => renderPath e.1 ++ " " ++ renderCell e.2))
+
+def errName : Err → String
+  | .invalidArgument => "InvalidArgument"
+  | .internal => "Internal"
+  | .eof => "eof"
+  | .fault => "FAULT"
+
+def showRes : Except Err Msg → String
+  | .ok m => "ok[" ++ String.intercalate ";" (renderFull m) ++ "]"
+  | .error e => "err:" ++ errName e
+
+def showImpl : Res → String
+  | .ok m => "ok[" ++ String.intercalate ";" (renderFull m) ++ "]"
+  | .err e => "err:" ++ e
+  | .other s => s
+
+/-- does the implementation's result equal this model result? (full message, presence included) -/
+def sameRes (impl : Res) (model : Except Err Msg) : Bool :=
+  match impl, model with
+  | .ok a, .ok b => renderFull a == renderFull b
+  | .err e, .error f => e == errName f
+  | _, _ => false
+
+def permutations {α} : List α → List (List α)
+  | [] => [[]]
+  | x :: xs => (permutations xs).flatMap (fun p => (List.range (p.length + 1)).map (fun i => p.take i ++ x :: p.drop i))
+
+/-- Go map iteration order is a free choice: the orders of path parameters and of query keys the model is
+    tried with (given order first; all permutations while that stays small). -/
+def orders (rq : Request) : List Request :=
+  let pps := if rq.pathParams.length ≤ 3 then permutations rq.pathParams else [rq.pathParams]
+  let qs := if rq.query.length ≤ 4 then permutations rq.query else [rq.query]
+  rq :: pps.flatMap (fun p => qs.map (fun q => { pathParams := p, query := q }))
+
+structure Case where
+  sch : Schema
+  root : MsgDesc
+  bd : Binding
+  rq : Request
+
+def caseHeadP : P (Schema × Name × Bytes) := do
+  let sch ← schemaP
+  expectTok "R"
+  let root ← nameTok
+  expectTok "B"
+  let bp ← hexTok
+  let _ ← hexTok          -- body bytes: not interpreted by the model (see `D`)
+  pure (sch, root, bp)
+
+def paramsP : P Request := do
+  expectTok "PP"
+  let n ← natTok
+  let pp ← repeatP n (do
+    let k ← hexTok
+    let v ← hexTok
+    pure (k, v))
+  expectTok "Q"
+  let nq ← natTok
+  let q ← repeatP nq (do
+    let k ← hexTok
+    let nv ← natTok
+    let vs ← repeatP nv hexTok
+    pure (k, vs))
+  pure { pathParams := pp, query := q }
+
+def oracleP : P Oracle := do
+  expectTok "O"
+  let n ← natTok
+  let tbl ← repeatP n oracleEntryP
+  pure (mkOracle tbl)
+
+def otherResP (tag : String) (ra : Res) : P (Option Res) := do
+  expectTok tag
+  match (← get) with
+  | "same" :: rest => do
+    set rest
+    pure none
+  | _ => do
+    let r ← resP
+    let _ := ra
+    pure (some r)
+
+def specName : Option (Except Err Msg) → String
+  | none => "free"
+  | some (.ok m) => "ok[" ++ String.intercalate ";" (renderLeaves m) ++ "]"
+  | some (.error e) => "err:" ++ errName e
+
+/-- judge one call: implementation result vs specification, then vs model (over the permitted orders) -/
+def judge (c : Case) (orc : Oracle) (stream : Bool) (dec : Dec) (impl : Res) : String :=
+  let sp := expect c.sch orc c.root c.bd dec c.rq
+  let specViol : Option String :=
+    match impl with
+    | .other s => some s!"impl-{s}"
+    | .err e =>
+      let ee : Option Err := if e == "InvalidArgument" then some .invalidArgument else if e == "Internal" then some .internal
+        else if e == "eof" then some .eof else none
+      match ee with
+      | none => some s!"error-code {e}"
+      | some ee =>
+        if !errorAllowed c.sch c.root c.bd dec stream ee then some s!"error-code {e} not permitted here"
+        else match sp with
+          | some (.ok _) =>
+            let tag := if pathVarOverBodyOptional c.sch c.root c.bd dec c.rq then "path-variable-over-body-optional: " else ""
+            some s!"{tag}rejected a request the binding rules accept: impl=err:{e} spec={specName sp}"
+          | some (.error se) => if se == ee then none else some s!"wrong error impl=err:{e} spec={specName sp}"
+          | none => none
+    | .ok m =>
+      if !frameOK c.sch c.root c.bd dec c.rq m then some "frame: a populated field is not accounted for by body, path variables or unfiltered query parameters"
+      else if mustFail c.sch orc c.root c.rq then some "accepted a path variable that does not parse"
+      else match sp with
+        | some (.ok l) => if renderLeaves m == renderLeaves l then none else some s!"fields differ from the binding rules: spec={specName sp}"
+        | some (.error _) => some s!"accepted a request the binding rules reject: spec={specName sp}"
+        | none => none
+  match specViol with
+  | some why => s!"VIOL {why} model={showRes (transcode c.sch orc c.root c.bd dec c.rq)}"
+  | none =>
+    let models := (orders c.rq).map (fun rq => transcode c.sch orc c.root c.bd dec rq)
+    if models.any (fun r => match r with
+        | .error .fault => true
+        | _ => false) then "BAD model-fault (dangling reference or oracle miss)"
+    else if models.any (sameRes impl) then
+      let br := match impl, sp with
+        | .ok _, some _ => "ok-spec"
+        | .ok _, none => "ok-free"
+        | .err e, _ => s!"err-{e}"
+        | _, _ => "other"
+      let nt := match impl with
+        | .ok m => if (leaves m).isEmpty then "" else " nt"
+        | _ => ""
+      s!"OK{nt} b={br}"
+    else s!"DIFF model={showRes (transcode c.sch orc c.root c.bd dec c.rq)} impl={showImpl impl}"
+
+def combine (vs : List String) : String :=
+  match vs.find? (fun v => v.startsWith "VIOL") with
+  | some v => v
+  | none =>
+    match vs.find? (fun v => v.startsWith "BAD") with
+    | some v => v
+    | none =>
+      match vs.find? (fun v => v.startsWith "DIFF") with
+      | some v => v
+      | none =>
+        let nt := if vs.any (fun v => (v.splitOn " ").contains "nt") then " nt" else ""
+        let b := match vs.getLast? with
+          | some v => (v.splitOn " ").filter (fun t => t.startsWith "b=")
+          | none => []
+        "OK" ++ nt ++ " " ++ String.intercalate " " b
+
+def resEq (a b : Res) : Bool :=
+  match a, b with
+  | .ok x, .ok y => renderFull x == renderFull y
+  | .err x, .err y => x == y
+  | .other x, .other y => x == y
+  | _, _ => false
+
+/-- The three registry configurations are judged independently (Go map iteration order may differ between
+    the runs, so the results need not be literally equal); the model and the specification have no registry,
+    hence a configuration that is judged differently from configuration A is a dependence on the registry. -/
+def registryVerdict (vA : String) (vB vC : Option String) : String :=
+  let isOK (v : String) : Bool := v.startsWith "OK"
+  let bad (o : Option String) : Option String := match o with
+    | some v => if isOK v then none else some v
+    | none => none
+  let good (o : Option String) : Bool := match o with
+    | some v => isOK v
+    | none => false
+  if isOK vA then
+    match bad vB, bad vC with
+    | some v, _ => "VIOL registry-dependence: with the target's types ALSO registered in the global registry the request is handled differently: " ++ v
+    | _, some v => "VIOL registry-dependence: with unrelated same-named types in the global registry the request is handled differently: " ++ v
+    | none, none => vA
+  else if good vB || good vC then
+    "VIOL registry-dependence: handled correctly only when the types are in the global registry; target-only types: " ++ vA
+  else vA
+
+def tcP : P String := do
+  let (sch, rootN, bp) ← caseHeadP
+  let rq ← paramsP
+  let outs ← get
+  -- the output fields follow the input fields in the same token list, separated by "=>" (see `handle`)
+  expectTok "=>"
+  let _ := outs
+  expectTok "D"
+  let d ← decP
+  let orc ← oracleP
+  expectTok "RA"
+  let ra ← resP
+  let rb ← otherResP "RB" ra
+  let rc ← otherResP "RC" ra
+  match sch.findMsg rootN with
+  | none => pure "BAD root message not in schema"
+  | some root =>
+    let c : Case := { sch := sch, root := root, bd := { bodyPath := bp }, rq := rq }
+    let j (r : Res) : String := match d with
+      | .panic => "OK b=body-codec-panic"      -- the JSON codec panicked on the body alone: property C09/C17, not judged here
+      | .trav => judge c orc false .none r
+      | .dec dd => judge c orc false dd r
+    pure (registryVerdict (j ra) (rb.map j) (rc.map j))
+
+def tsP : P String := do
+  let sch ← schemaP
+  expectTok "R"
+  let rootN ← nameTok
+  expectTok "B"
+  let bp ← hexTok
+  let _ ← hexTok
+  expectTok "N"
+  let _ ← natTok
+  let rq ← paramsP
+  expectTok "=>"
+  expectTok "D"
+  let ds ← (do
+    match (← get) with
+    | "panic" :: rest => do
+      set rest
+      pure [DecX.panic]
+    | _ => do
+      let nd ← natTok
+      repeatP nd decP : P (List DecX))
+  let orc ← oracleP
+  let listP : P (List Res) := do
+    let n ← natTok
+    repeatP n resP
+  expectTok "RA"
+  let ra ← listP
+  let other (tag : String) : P (Option (List Res)) := do
+    expectTok tag
+    match (← get) with
+    | "same" :: rest => do
+      set rest
+      pure none
+    | _ => do
+      let l ← listP
+      pure (some l)
+  let rb ← other "RB"
+  let rc ← other "RC"
+  match sch.findMsg rootN with
+  | none => pure "BAD root message not in schema"
+  | some root =>
+    let c : Case := { sch := sch, root := root, bd := { bodyPath := bp }, rq := rq }
+    let j (ra : List Res) : String :=
+      if ds.any (fun d => match d with
+          | .panic => true
+          | _ => false) then "OK b=body-codec-panic"
+      else
+        let decs : List Dec := ds.map (fun d => match d with
+          | .dec dd => dd
+          | _ => Dec.none)
+        -- the implementation stops at its first error; the decode oracle may have gone on
+        let stoppedEarly := ra.length < decs.length && (match ra.getLast? with
+          | some (.err _) => true
+          | _ => false)
+        let decs := if stoppedEarly then decs.take ra.length else decs
+        if decs.length != ra.length then s!"DIFF stream: {ra.length} results for {decs.length} decoded bodies"
+        else
+          -- the stream model is `streamTranscode`; each call is judged like a unary call (C04_stream)
+          let viaStream := streamTranscode c.sch orc c.root c.bd c.rq decs
+          let viaMap := decs.map (fun d => transcode c.sch orc c.root c.bd d c.rq)
+          if viaStream.map showRes != viaMap.map showRes then "BAD stream model differs from per-message model"
+          else combine ((decs.zip ra).map (fun p => judge c orc true p.1 p.2))
+    pure (registryVerdict (j ra) (rb.map j) (rc.map j))
+
+/-- fixed schema of the `pf` op (mirrors harness/c04 pfSchema) -/
+def pfEnum : EnumDesc := { name := ascii "PE", values := [(ascii "PE_ZERO", 0), (ascii "PE_ONE", 1), (ascii "PE_NEG", -1), (ascii "PE_MAX", 2147483647), (ascii "ALIAS", 1)] }
+def pfSchema : Schema := { enums := [pfEnum], msgs := [] }
+
+def pfKind (k : String) : Option (Sum Kind Name) :=
+  match k with
+  | "enum" => some (.inl (.enum (ascii "PE")))
+  | "Int64Value" | "Int32Value" | "UInt64Value" | "UInt32Value" | "BoolValue" | "StringValue" | "BytesValue" | "FieldMask" => some (.inr (wkt k))
+  | other => (kindOf other []).map .inl
+
+def noOracle : Oracle := fun _ _ => none
+
+def handlePF (k : String) (text : Bytes) (out : List String) : String :=
+  match pfKind k with
+  | none => "BAD pf kind"
+  | some (.inl kind) =>
+    -- the pf fields are proto3-optional (presence), so zero values stay visible
+    let m := match parseScalar pfSchema noOracle kind text with
+      | .ok v => "ok " ++ renderVal v
+      | .error _ => "err"
+    let o := String.intercalate " " out
+    if o == m then (if m == "err" then "OK b=pf-err" else "OK nt b=pf-ok") else s!"VIOL text form of {k}: impl={o} model/spec={m}"
+  | some (.inr ref) =>
+    match parseMessage noOracle ref text, out with
+    | .error _, ["err"] => "OK b=pf-err"
+    | .ok es, "okm" :: rest =>
+      match (entriesP.run rest) with
+      | some (ies, []) => if renderFull ies == renderFull es then "OK nt b=pf-ok" else s!"VIOL text form of {k}: model={showRes (.ok es)}"
+      | _ => "BAD pf entries"
+    | r, _ => s!"VIOL text form of {k}: model={showRes r}"
+
+def handle : Handler
+  | "tc" :: ins, outs =>
+    match tcP.run (ins ++ "=>" :: outs) with
+    | some (v, []) => v
+    | some (_, _) => "BAD trailing tokens"
+    | none => "BAD tc parse"
+  | "ts" :: ins, outs =>
+    match tsP.run (ins ++ "=>" :: outs) with
+    | some (v, []) => v
+    | some (_, _) => "BAD trailing tokens"
+    | none => "BAD ts parse"
+  | ["pf", k, hx], outs =>
+    match parseHex hx with
+    | some t => handlePF k t outs
+    | none => "BAD hex"
+  | "hcp" :: _ :: rest, [out] =>
+    match rest.mapM parseHex with
+    | none => "BAD hex"
+    | some bs =>
+      match bs.reverse with
+      | seq :: seqsRev =>
+        let m := hasCommonPrefix (seqsRev.reverse.map splitDot) (splitDot seq)
+        let ms := if m then "true" else "false"
+        if out == ms then s!"OK nt b=hcp-{ms}" else s!"VIOL query filter prefix test: impl={out} spec={ms}"
+      | [] => "BAD hcp"
+  | _, _ => "BAD c04 line"
 
 end GB.C04
